@@ -11,6 +11,9 @@ def hooks_commits():
         return []
 
 CHECKS = {
+ "C13": ("memo+sched", "model_checking", "explicit-state exploration of the projection memo tables + stateless preemption-bounded exploration of real OS threads under a controlled (baton) scheduler",
+         "Histories: every ordered pair (with echo) and every same-sector triple of 480 projection ops on fresh instances, BFS to closure over the memo-table states of small universes, and all ordered pairs/triples of ~40 public calls in fresh OS threads; every result must be bitwise equal to its cold value and every filled slot canonical. Schedules: depth-first enumeration of all interleavings of 2-3 real OS threads (real thread_local!/OnceLock/LazyLock) at the hook points up to a preemption bound, with warm globals in-process and with cold globals in a fresh process per execution; monitors: bitwise results, instance exclusivity, initialisers at most once, deadlock; violating schedules are replayed before being reported.",
+         "Switch points only at the hook points (memo reads/stores, entry/exit of forward/inverse, first two accesses per lazy table); memory-ordering effects below that are not explored. loom/shuttle are not used because their coroutine threads would share std thread_local! state.", "5 C13"),
  "C14": ("totality", "exploration", "exhaustive enumeration of structured id / resolution / coordinate classes x every public function in two build profiles, each probe in a resource-limited child process",
          "Every combination of a catalogue of ~15 k structured 64-bit patterns (every top-6 value x marker position x payload class), 87 resolution classes and 90 coordinate classes with every public function is executed in the release and in the overflow-checked build inside child processes (1 GiB address space, 10 s watchdog): the call must return, out-of-range resolutions must be rejected, results must be canonical ids of the requested resolution, non-cell bit patterns must be rejected or behave exactly as the canonical cell they alias.",
          "Catalogue is structured, not all 2^64 values; calls with honest fan-out above 4^8 are skipped.", "5 C14"),
@@ -106,6 +109,7 @@ def main():
             {"name": "hilbert-automaton", "path": "harness/src/checks/hilbert.rs", "serves_properties": ["C17"], "kind_free_text": "exhaustive position enumeration + Mealy-machine model with conformance binding and pair-automaton exploration"},
             {"name": "golden", "path": "harness/src/checks/golden.rs", "serves_properties": ["C06"], "kind_free_text": "frozen reference table (golden/*.bin) compared exhaustively with the current tree"},
             {"name": "totality", "path": "harness/src/checks/total.rs", "serves_properties": ["C14"], "kind_free_text": "probe catalogue executed in supervised child processes, release + overflow-checked builds"},
+            {"name": "memo+sched", "path": "harness/src/checks/purity.rs", "serves_properties": ["C13"], "kind_free_text": "memo-table state machine (explicit-state) + hand-rolled DFS scheduler over real OS threads with preemption bounding"},
             {"name": "setmachine", "path": "harness/src/checks/sets.rs", "serves_properties": ["C08", "C09", "C10"], "kind_free_text": "stateright BFS of a cell-set machine + subset and permutation enumeration"},
         ],
         "checks": checks,
